@@ -376,17 +376,18 @@ func (pm *pathMgr) modelInts(m map[string]string) map[string]int64 {
 	out := map[string]int64{}
 	pm.lastSVars = nil
 	for k, v := range m {
-		if pm.strVars[k] {
+		plain := strings.TrimPrefix(strings.Trim(k, "|"), "$")
+		if pm.strVars["|$"+plain+"|"] {
 			if s, ok := parseSMTString(v); ok {
 				if pm.lastSVars == nil {
 					pm.lastSVars = map[string]string{}
 				}
-				pm.lastSVars[strings.TrimPrefix(strings.Trim(k, "|"), "$")] = s
+				pm.lastSVars[plain] = s
 			}
 			continue
 		}
 		if n, ok := modelInt(v); ok {
-			out[strings.TrimPrefix(strings.Trim(k, "|"), "$")] = n
+			out[plain] = n
 		}
 	}
 	return out
